@@ -711,131 +711,3 @@ fn any_align() -> Option<FormatAlign> {
     }
 }
 
-// ---------------------------------------------------------------------------------------------
-// C18: the integer driver hands sign + base prefix to grouping and to alignment
-
-static mut AM_CALLS: u32 = 0;
-static mut AM_PREFIX: [u8; 4] = [0; 4];
-static mut AM_PREFIX_LEN: usize = 0;
-
-fn am_recorder(_spec: &FormatSpec, magnitude_str: String, prefix: &str) -> String {
-    unsafe {
-        AM_CALLS += 1;
-        AM_PREFIX_LEN = prefix.len();
-        let b = prefix.as_bytes();
-        for i in 0..4 {
-            if i < b.len() {
-                AM_PREFIX[i] = b[i];
-            }
-        }
-    }
-    magnitude_str
-}
-
-static mut FSA2_SIGN: [u8; 4] = [0; 4];
-static mut FSA2_SIGN_LEN: usize = 0;
-static mut FSA2_CALLS: u32 = 0;
-static mut FSA2_DEFAULT_RIGHT: bool = false;
-
-fn fsa_sign_recorder<T>(_spec: &FormatSpec, _m: &T, sign_str: &str, default_align: FormatAlign) -> Result<String, FormatSpecError>
-where
-    T: CharLen + Deref<Target = str>,
-{
-    unsafe {
-        FSA2_CALLS += 1;
-        FSA2_SIGN_LEN = sign_str.len();
-        let b = sign_str.as_bytes();
-        for i in 0..4 {
-            if i < b.len() {
-                FSA2_SIGN[i] = b[i];
-            }
-        }
-        FSA2_DEFAULT_RIGHT = default_align == FormatAlign::Right;
-    }
-    Ok(String::new())
-}
-
-fn radix_stub(_spec: &FormatSpec, _magnitude: BigInt, _radix: u32) -> Result<String, FormatSpecError> {
-    Ok(String::from("ff"))
-}
-
-// @ob id=C18.k.format_int_prefix props=C18 kind=bounded tier=quick timeout=600
-// @bound the values 255 and -255; types b o x d and none; every sign option, alternate form and grouping; digit rendering (BigInt::to_str_radix, external) replaced by a constant
-// @clause zero padding after sign and base prefix: the integer driver hands the SAME text - sign ('-' for negative values, else '+', ' ' or nothing per the sign option) followed by the base prefix (0b 0o 0x only in alternate form) - both to the grouping step (which subtracts its length from the width) and to the alignment step (which puts it in front of the padding), with right default alignment
-// @fns FormatSpec::format_int FormatSpec::validate_format
-#[kani::proof]
-#[kani::unwind(8)]
-#[kani::stub(FormatSpec::format_int_radix, radix_stub)]
-#[kani::stub(FormatSpec::add_magnitude_separators, am_recorder)]
-#[kani::stub(FormatSpec::format_sign_and_align, fsa_sign_recorder)]
-fn c18_format_int_prefix() {
-    let negative: bool = kani::any();
-    let num = ManuallyDrop::new(if negative { BigInt::from(-255) } else { BigInt::from(255) });
-    let ft_k: u8 = kani::any();
-    kani::assume(ft_k < 5);
-    let (ft, base): (Option<FormatType>, &str) = match ft_k {
-        0 => (None, ""),
-        1 => (Some(FormatType::Decimal), ""),
-        2 => (Some(FormatType::Hex(Case::Lower)), "0x"),
-        3 => (Some(FormatType::Binary), "0b"),
-        _ => (Some(FormatType::Octal), "0o"),
-    };
-    let sign_k: u8 = kani::any();
-    kani::assume(sign_k < 4);
-    let sign = match sign_k {
-        0 => None,
-        1 => Some(FormatSign::Plus),
-        2 => Some(FormatSign::Minus),
-        _ => Some(FormatSign::MinusOrSpace),
-    };
-    let alt: bool = kani::any();
-    let g = any_grouping();
-    // ',' is not allowed with b o x (own obligation): keep specs that pass validation
-    kani::assume(!(g == Some(FormatGrouping::Comma) && ft_k >= 2));
-    let spec = ManuallyDrop::new(FormatSpec {
-        conversion: None,
-        fill: None,
-        align: None,
-        sign,
-        alternate_form: alt,
-        width: kani::any(),
-        grouping_option: g,
-        precision: None,
-        format_type: ft,
-    });
-    let r = ManuallyDrop::new(spec.format_int(&num));
-    assert!(r.is_ok());
-    let mut expect = [0u8; 4];
-    let mut n = 0;
-    if negative {
-        expect[0] = b'-';
-        n = 1;
-    } else if sign_k == 1 {
-        expect[0] = b'+';
-        n = 1;
-    } else if sign_k == 3 {
-        expect[0] = b' ';
-        n = 1;
-    }
-    if alt {
-        let bb = base.as_bytes();
-        for i in 0..2 {
-            if i < bb.len() {
-                expect[n] = bb[i];
-                n += 1;
-            }
-        }
-    }
-    unsafe {
-        assert!(AM_CALLS == 1 && FSA2_CALLS == 1);
-        assert!(AM_PREFIX_LEN == n && FSA2_SIGN_LEN == n);
-        for i in 0..3 {
-            if i < n {
-                assert!(AM_PREFIX[i] == expect[i] && FSA2_SIGN[i] == expect[i]);
-            }
-        }
-        assert!(FSA2_DEFAULT_RIGHT);
-    }
-    kani::cover!(n == 3);
-    kani::cover!(n == 0);
-}
